@@ -15,11 +15,14 @@ t0 = time.time()
 ENV = dict(os.environ, CARGO_NET_OFFLINE="true", CARGO_TERM_COLOR="never")
 HOOK = "--cfg tls_parser_verif -Awarnings"
 
-TARGET = {"C01": "fz_c01", "C06": "fz_c06", "C07": "fz_c07"}[prop]
+TARGET = {"C01": "fz_c01", "C06": "fz_c06", "C07": "fz_c07"}.get(prop)
+# properties with families driven by fuzzer bytes (harness/src/fuzzing.rs STRUCT_FAMILIES)
+STRUCT_PROPS = {"C02", "C03", "C04", "C05", "C06", "C07", "C08", "C09", "C10", "C13", "C14", "C15", "C16"}
+STRUCT_SECS = int(os.environ.get("VERIF_STRUCT_FUZZ_SECS", "90"))
 FUZZ_SECS = int(os.environ.get("VERIF_FUZZ_SECS", "150"))
 MIRI = {"C01": [("corpus", 24), ("patterns", 8), ("defrag-soup", 24)],
         "C06": [("handshake", 16), ("extensions", 16), ("records", 8), ("sct", 8), ("kx-sig", 8), ("defragmenter-provenance", 16)],
-        "C07": [("S1-S2-splits", 32), ("S3-S4-S6-histories", 32), ("S7-soup", 48)]}[prop]
+        "C07": [("S1-S2-splits", 32), ("S3-S4-S6-histories", 32), ("S7-soup", 48)]}.get(prop, [])
 
 if not hb:
     print("INCONCLUSIVE property=%s harness does not build against the current tree (see %s/build.log)" % (prop, BUILD))
@@ -65,28 +68,9 @@ if prop == "C07":
         elif rc != 0:
             inconclusive.append("warped-clock run inconclusive: " + (lines[-1] if lines else se[-200:]))
 
-if tier == "thorough":
-    # ------------------------------------------------------------ stock release profile (no debug assertions / overflow checks)
-    if prop == "C01":
-        env = dict(ENV, RUSTFLAGS=HOOK)
-        rc, so, se = run(["cargo", "build", "--offline", "--release", "--manifest-path", os.path.join(ROOT, "harness/Cargo.toml"), "--target-dir", os.path.join(BUILD, "release")], env=env)
-        if rc != 0:
-            inconclusive.append("release-profile harness build failed: " + se[-300:])
-        else:
-            ed = os.path.join(BUILD, "layers/release-evidence")
-            os.makedirs(ed, exist_ok=True)
-            env = dict(ENV, VERIF_EVIDENCE_DIR=ed, VERIF_RUN_DIR=os.path.join(BUILD, "run-release"))
-            rc, so, se = run([os.path.join(BUILD, "release/release/tlsverif"), "run", prop, "--tier", "quick", "--seed", str(seed + 1)], env=env)
-            lines = so.splitlines()
-            layers["release_profile"] = {"exit": rc, "summary": lines[0] if lines else ""}
-            for l in lines:
-                if l.startswith("VIOLATION") or l.startswith("  violation signature") or l.startswith("KNOWN-FINDING"):
-                    print("[release profile] " + l if not l.startswith("VIOLATION") else l)
-            if rc == 1:
-                violations.append(("release-profile:see-lines-above", None))
-            elif rc != 0:
-                inconclusive.append("release-profile run inconclusive")
 
+def fuzz_layer(TARGET, key, FUZZ_SECS, extra_env, max_len, strict_unconfirmed):
+    """libFuzzer + ASan as a coverage-guided workload generator; artifacts are re-judged by the native oracle."""
     # ------------------------------------------------------------ libFuzzer + ASan
     fdir = os.path.join(BUILD, "fuzz")
     env = dict(ENV, RUSTFLAGS=HOOK)
@@ -102,14 +86,14 @@ if tier == "thorough":
             os.makedirs(d)
         run([BIN, "fuzz-seeds", seeds, "--n", "600", "--seed", str(seed)])
         cmd = [fbin, corpus, os.path.join(seeds, TARGET), "-fork=16", "-max_total_time=%d" % FUZZ_SECS, "-timeout=10", "-rss_limit_mb=4096",
-               "-max_len=20000", "-len_control=0", "-artifact_prefix=" + art + "/", "-ignore_crashes=1", "-ignore_timeouts=1", "-ignore_ooms=1", "-print_final_stats=1"]
-        rc, so, se = run(cmd, timeout=FUZZ_SECS + 600)
+               "-max_len=%d" % max_len, "-len_control=0", "-artifact_prefix=" + art + "/", "-ignore_crashes=1", "-ignore_timeouts=1", "-ignore_ooms=1", "-print_final_stats=1"]
+        rc, so, se = run(cmd, env=dict(ENV, **extra_env), timeout=FUZZ_SECS + 600)
         log = se
         open(os.path.join(work, "fuzz.log"), "w").write(log)
         covs = re.findall(r"cov: (\d+) ft: (\d+) corp: (\d+)", log)
         execs = re.findall(r"^#(\d+):", log, re.M)
         arts = sorted(glob.glob(art + "/*"))
-        layers["libfuzzer_asan"] = {"target": TARGET, "seconds": FUZZ_SECS, "jobs": 16, "executions": int(execs[-1]) if execs else 0,
+        layers[key] = {"target": TARGET, "seconds": FUZZ_SECS, "jobs": 16, "executions": int(execs[-1]) if execs else 0,
                                     "coverage_edges": int(covs[-1][0]) if covs else 0, "features": int(covs[-1][1]) if covs else 0,
                                     "corpus": int(covs[-1][2]) if covs else 0, "artifacts": len(arts), "seed_inputs": 600}
         if not execs:
@@ -117,7 +101,7 @@ if tier == "thorough":
         asan = "ERROR: AddressSanitizer" in log
         confirmed = 0
         for a in arts[:40]:
-            env2 = dict(ENV)
+            env2 = dict(ENV, **extra_env)
             rc2, so2, se2 = run(["timeout", "-s", "KILL", "120", BIN, "fuzz-replay", TARGET, "--out", a], env=env2)
             kind = os.path.basename(a).split("-")[0]
             if rc2 == 1 or rc2 in (137, 124, -9) or rc2 >= 128:
@@ -127,13 +111,17 @@ if tier == "thorough":
                 os.makedirs(os.path.dirname(keep), exist_ok=True)
                 shutil.copy(a, keep)
                 violations.append(("fuzz:" + sig, {"layer": "fuzz", "target": TARGET, "artifact": keep, "native_replay": so2[-1500:], "how_to_replay": "%s fuzz-replay %s --out %s" % (BIN, TARGET, keep)}))
-        layers["libfuzzer_asan"]["artifacts_confirmed_by_native_oracle"] = confirmed
+        layers[key]["artifacts_confirmed_by_native_oracle"] = confirmed
         if asan:
             m = re.search(r"ERROR: AddressSanitizer: (\S+)", log)
             violations.append(("asan:" + (m.group(1) if m else "report"), {"layer": "fuzz", "target": TARGET, "log_excerpt": log[log.find("ERROR: AddressSanitizer"):][:3000]}))
+        elif arts and confirmed == 0 and not strict_unconfirmed:
+            layers[key]["artifacts_not_confirmed_note"] = "fuzzer-side events (harness generator panics, time-outs); the native monitors decide"
         elif arts and confirmed == 0:
             inconclusive.append("%d fuzzer artifacts not confirmed by the native oracle (fuzzer-side events, see %s)" % (len(arts), art))
 
+
+def miri_layer():
     # ------------------------------------------------------------ Miri
     env = dict(ENV, RUSTFLAGS=HOOK, MIRIFLAGS="-Zmiri-disable-isolation")
     mdir = os.path.join(BUILD, "miri")
@@ -177,6 +165,40 @@ if tier == "thorough":
         except Exception as e:
             inconclusive.append("miri shard %s/%d wrote no result (%s)" % (fam, shard, e))
     layers["miri"] = {"families": MIRI, "shards_completed": miri_cases, "oracle_evaluations_under_miri": miri_evals, "undefined_behaviour_reports": miri_ub}
+
+
+
+if tier == "thorough":
+    # ------------------------------------------------------------ stock release profile (no debug assertions / overflow checks)
+    if prop == "C01":
+        env = dict(ENV, RUSTFLAGS=HOOK)
+        rc, so, se = run(["cargo", "build", "--offline", "--release", "--manifest-path", os.path.join(ROOT, "harness/Cargo.toml"), "--target-dir", os.path.join(BUILD, "release")], env=env)
+        if rc != 0:
+            inconclusive.append("release-profile harness build failed: " + se[-300:])
+        else:
+            ed = os.path.join(BUILD, "layers/release-evidence")
+            os.makedirs(ed, exist_ok=True)
+            env = dict(ENV, VERIF_EVIDENCE_DIR=ed, VERIF_RUN_DIR=os.path.join(BUILD, "run-release"))
+            rc, so, se = run([os.path.join(BUILD, "release/release/tlsverif"), "run", prop, "--tier", "quick", "--seed", str(seed + 1)], env=env)
+            lines = so.splitlines()
+            layers["release_profile"] = {"exit": rc, "summary": lines[0] if lines else ""}
+            for l in lines:
+                if l.startswith("VIOLATION") or l.startswith("  violation signature") or l.startswith("KNOWN-FINDING"):
+                    print("[release profile] " + l if not l.startswith("VIOLATION") else l)
+            if rc == 1:
+                violations.append(("release-profile:see-lines-above", None))
+            elif rc != 0:
+                inconclusive.append("release-profile run inconclusive")
+
+    # ------------------------------------------------------------ libFuzzer + ASan
+    if TARGET:
+        fuzz_layer(TARGET, "libfuzzer_asan", FUZZ_SECS, {}, 20000, True)
+    if prop in STRUCT_PROPS:
+        # the harness's own structured generators driven by the fuzzer's bytes (coverage-guided structured workload)
+        fuzz_layer("fz_struct", "libfuzzer_structured", STRUCT_SECS, {"FZ_PROP": prop}, 6000, False)
+
+    if MIRI:
+        miri_layer()
 
 # ---------------------------------------------------------------- merge
 epath = os.path.join(ROOT, "evidence/%s.json" % prop)
